@@ -1342,6 +1342,43 @@ def _t_keysbig(g):
     g.data_next = max(g.data_next, 1)
 
 
+def _t_keysperm(g):
+    """C23: header order != definition order for PURE range parameters.  1-3 classes of independent tasks with 2-4
+    range parameters of different sizes / lower bounds / steps, no derived parameter and no local in between, whose
+    header is a non-identity permutation of the definition order (attr perm = tuple fixes it for the first class).
+    make_key and key_print both work in definition order; a generator that mixes the two orders prints another
+    instance's values."""
+    r = g.r
+    fixed = getattr(g, "perm", None)
+    for ci in range(1 if fixed else r.range(1, 3)):
+        c = Cls(next(g.names))
+        g.p.classes.append(c)
+        np_ = len(fixed) if fixed else r.pick([2, 3, 3, 4])
+        sizes = r.shuffle([2, 3, 4, 5, 7])[:np_]          # pairwise different range sizes
+        los = r.shuffle([-4, -3, -1, 0, 2, 5, 9])[:np_]   # pairwise different lower bounds
+        names = ["k", "m", "n", "q"]
+        for d in range(np_):
+            st = r.pick([1, 1, 2, 3])
+            lo = C(los[d])
+            if d > 0 and r.chance(1, 4):                  # a bound that depends on the previous parameter
+                lo = simp(B("add", L(d - 1), C(los[d])))
+            hi = simp(B("add", lo, C(st * (sizes[d] - 1))))
+            c.locals.append(Local(names[d], 'R', lo, hi, C(st)))
+        ident = list(range(np_))
+        perm = list(fixed) if fixed else ident
+        while perm == ident and not fixed:
+            perm = r.shuffle(ident)
+        c.params = perm
+        c.flows.append(Flow("A", 'R', [Dep(True, None, ('M', [C(0)]))]))
+    g.data_next = max(g.data_next, 1)
+
+
+def local_order_params(c, header_params):
+    """the parameter values in DEFINITION order, given them in header order"""
+    order = sorted(range(len(c.params)), key=lambda j: c.params[j])
+    return tuple(header_params[j] for j in order)
+
+
 def range_boxes(p):
     """per class: the ranges (max - min + 1 with the generated code's initial values) of the parameters in
     definition order — what make_key multiplies"""
